@@ -160,7 +160,13 @@ def render_tokens(rng, e):
     if e['und']:
         rest.append(['[undeclared'] + [ref(c) for c in e['und']] + [']'])
     if e['options']:
-        rest.append(['[droop'] + e['options'][:-1] + [e['options'][-1] + ']'])
+        if len(e['options']) > 1 and rng.random() < 0.5:
+            # several [droop ...] blocks accumulate
+            k = rng.randint(1, len(e['options']) - 1)
+            opts.append(['[droop'] + e['options'][:k] + [']'])
+            opts.append(['[droop'] + e['options'][k:-1] + [e['options'][-1] + ']'])
+        else:
+            rest.append(['[droop'] + e['options'][:-1] + [e['options'][-1] + ']'])
     for c in wd_minus:
         rest.append(['-%d' % c])
     rng.shuffle(rest)
@@ -544,7 +550,13 @@ def opts_impl(item):
     from droop.election import Election
     from droop.common import UsageError, ElectionError
     from droop.values import ArithmeticValuesError
-    blt = '3 2\n' + ('[droop %s]\n' % ' '.join(file) if file else '') + '4 1 2 0\n3 2 1 0\n2 3 0\n0\n"A" "B" "C"\n"t"\n'
+    # the file layer travels in the ballot file; with two or more options it is split over two [droop ...] blocks (they accumulate)
+    if len(file) > 1 and (len(' '.join(file)) % 2 == 0):
+        k = 1 + len(file[0]) % (len(file) - 1)
+        blocks = '[droop %s]\n[tie 1 2 3]\n[droop %s]\n' % (' '.join(file[:k]), ' '.join(file[k:]))
+    else:
+        blocks = '[droop %s]\n' % ' '.join(file) if file else ''
+    blt = '3 2\n' + blocks + '4 1 2 0\n3 2 1 0\n2 3 0\n0\n"A" "B" "C"\n"t"\n'
     try:
         prof = ElectionProfile(data=blt)
         E = Election(prof, dict(cmd))
